@@ -95,7 +95,15 @@ def rtOnlySlashSpelling (h : String) : Bool :=
       match restDecode op.schema reqMsgName op.rule op.rule.httpMethod enc.path (groupQuery enc.query) (enc.body.getD []) with
       | .error _ => "no"
       | .ok back =>
-        if canonLeaves back != canonLeaves m && canonLeaves back == canonLeaves (m.map fun kv => (kv.1, canonSlash kv.2)) then "yes" else "no"
+        -- leaf by leaf (both lists are sorted by field path, stably): equal, or - for a field the path template binds -
+        -- equal up to the spelling of escaped slashes
+        let a := canonLeaves back
+        let b := canonLeaves m
+        let inPath (k : Bytes) : Bool :=
+          let pat := 0x7B :: k
+          (List.range (op.rule.template.length + 1)).any fun i => hasPrefix pat (op.rule.template.drop i)
+        if a != b && a.length == b.length &&
+            (a.zip b).all (fun (x, y) => x.1 == y.1 && (x.2 == y.2 || (inPath y.1 && x.2 == canonSlash y.2))) then "yes" else "no"
   r == "yes"
 
 /-- An RPC client in front of a REST-only service: the backend is invoked once with the request the
